@@ -21,7 +21,7 @@ PROPS = {
         "assumptions": ["semantics are invariant under order-preserving relabelling of qubits (Lean sees compact ids)"],
     },
     "C12": {
-        "lean_modules": ["StimModel.Props.C12", "StimModel.Props.C12b", "StimModel.Props.C12c", "StimModel.Props.C12d", "StimModel.Core.Pauli", "StimModel.Core.Local", "StimModel.Core.Two",
+        "lean_modules": ["StimModel.Props.C12", "StimModel.Props.C12b", "StimModel.Props.C12c", "StimModel.Props.C12d", "StimModel.Props.C12e", "StimModel.Props.C12f", "StimModel.Props.C12g", "StimModel.Props.C12h", "StimModel.Props.C12i", "StimModel.Props.C12j", "StimModel.Core.Pauli", "StimModel.Core.Local", "StimModel.Core.Two",
                          "StimModel.Generated.GateThms", "StimModel.Generated.PauliRefThms"],
         "areas": [
             {"area": "gatetab", "n": 1, "extra": ["PauliRef"]},
@@ -37,7 +37,7 @@ PROPS = {
         "assumptions": ["propagation is invariant under order-preserving relabelling of the qubits the circuit touches; untouched positions are checked unchanged by the harness"],
     },
     "C11": {
-        "lean_modules": ["StimModel.Props.C11", "StimModel.Props.C11b", "StimModel.Generated.GateThms", "StimModel.Generated.PrependThms"],
+        "lean_modules": ["StimModel.Props.C11", "StimModel.Props.C11b", "StimModel.Props.C12e", "StimModel.Props.C12f", "StimModel.Props.C12g", "StimModel.Generated.GateThms", "StimModel.Generated.PrependThms"],
         "areas": [
             {"area": "gatetab", "n": 1, "extra": ["Prepend"]},
             {"area": "tableau", "n": {"quick": 400, "thorough": 20000}, "timeout": 600},
